@@ -6,6 +6,8 @@ from ..lib import (params, returns_of, is_none_const, dominating_literals)
 from . import storefam as S
 from .cachefam import on_every_path
 
+from . import extra as X
+
 EXPLANATION = ("Forwarding/translation discipline of KeyTranslatingStore/PrefixStore/RoutingStore/MountPointStore: every API method "
                "forwards with translate_key applied exactly once (routing: the untranslated key), the prefix algebra of PrefixStore "
                "is self-inverse by construction, mount insertion side and scan direction agree (last mount wins) with matching at "
@@ -312,3 +314,4 @@ def run(chk):
     rule_union_views(chk, "C14.5")
     rule_boolean_predicates(chk, "C14.6")
     rule_global_helpers(chk, "C14.7")
+    X.rule_prefix_tests_at_boundary(chk, "C14.8")
